@@ -113,6 +113,62 @@ def model_level(n):
     return out
 
 
+def sym_exact(args):
+    """[S over datasets AND schemes]: the position-only exact models on a SymDataset; the optimum returned by the stand-in is a
+    forked choice; score(r) <= score(w) for all rankings with ties w is proved per path"""
+    cfg, n, m, flag = args
+    from vf import symds
+    sweep.install()
+    symds.install_kernel_dispatcher()
+    out = []
+    ds = symds.SymDataset(n, m)
+    B, T = fork.scheme_vars()
+    sc = fork.make_scheme(B, T)
+    ws = spec.level_vectors(n)
+    wt = {w: ds.score_term(w, B, T) for w in ws}
+    ex = fork.Explorer(fork.valid_scheme(B, T) + ds.constraints(), max_paths=int(2e5), timeout_ms=120000)
+
+    def pay(ctx, mdl, what, cls):
+        return {"signature": {"site": cfg + "(symbolic dataset)", "class": cls}, "what": f"{cfg}: {what}", "check": cls, "config": cfg, "flag": flag,
+                "rankings": shapes.raw_json(ds.levels_from(mdl), ds.names), "scheme": fork.scheme_values(mdl, B, T),
+                "choices": [c for c in ctx.choices if c[0] in ("pulp-optimum", "cplex-optimum", "pool-anchor")]}
+
+    def path(ctx):
+        try:
+            alg, _ = sweep.make_config(cfg, [])
+            cons = alg.compute_consensus_rankings(ds, sc, flag)
+            lvs = [shapes.ranking_levels(r, ds.names) for r in cons.consensus_rankings]
+        except harness.HarnessError:
+            raise
+        except harness.Inconclusive:
+            raise
+        except Exception as e:  # noqa
+            ctx._ensure_model()
+            out.append(pay(ctx, ctx.model, f"raised {type(e).__name__}: {e}", "raises"))
+            return
+        for lv in lvs:
+            if any(v == -1 for v in lv):
+                ctx._ensure_model()
+                out.append(pay(ctx, ctx.model, "element missing from the consensus", "optimal"))
+                return
+            st = wt[tuple(spec.levels_of(spec.buckets_of(lv), n))]
+            mdl = ctx.prove(z3.And(*[st <= t for t in wt.values()]))
+            if mdl is not None:
+                out.append(pay(ctx, mdl, f"returned ranking {spec.buckets_of(lv)} is not a global optimum", "optimal"))
+                return
+        if not flag and cfg == "ExactCplex(noopt)":
+            ret = {tuple(spec.levels_of(spec.buckets_of(lv), n)) for lv in lvs}
+            s0 = wt[next(iter(ret))]
+            miss = [wt[w] > s0 for w in ws if w not in ret]
+            if miss:
+                mdl = ctx.prove(z3.And(*miss))
+                if mdl is not None:
+                    out.append(pay(ctx, mdl, "all optimal consensuses requested but an optimal ranking is missing", "allopt"))
+    ex.explore(path)
+    STATS.sample({"symbolic dataset": f"all datasets with n={n}, m={m}", "config": cfg, "scheme": "12 symbolic reals", "paths": STATS.paths})
+    return out
+
+
 def run(run):
     sweep.install()
     if run.thorough:
@@ -133,6 +189,12 @@ def run(run):
                              strata=["cycles3"])
     items += sweep.history_items(run, CFGS, [chk_exact, "wellformed"], 4 if run.thorough else 2)
     run.pmap("sweep", sweep.run_item, sweep.order_items(items), chunksize=1)
+    symb = [("ExactCplex(noopt)", 2, 2, True), ("ExactCplex(noopt)", 3, 1, True), ("ExactCplex(noopt)", 3, 2, True), ("ExactCplex(noopt)", 2, 2, False),
+            ("ExactPulp", 2, 2, True), ("ExactPulp", 3, 1, True)]
+    if run.thorough:
+        symb += [("ExactCplex(noopt)", 3, 3, True), ("ExactCplex(noopt)", 3, 1, False), ("ExactPulp", 3, 2, True), ("ExactCplexOptim1", 3, 2, True)]
+    run.bounds["exact models on symbolic datasets [S over datasets and schemes] (config, n, m, at most one)"] = symb
+    run.pmap("sym_exact", sym_exact, symb)
     run.part("validate_engine_f", lambda: sweep.validate_engine_f(run, 40 if run.thorough else 14))
     run.extra["work_items"] = len(items)
     run.extra["stubs"] = sweep.install()
